@@ -330,6 +330,13 @@ class SshServer:
     def on_packet(self, sock, payload):
         t = payload[0]
         w = self.world
+        if self.client_kexinit is None and t not in (MSG_KEXINIT, 1, 2, 3, 4) and not self.cfg.get('lenient_first_packet'):
+            # before its KEXINIT a client may only send transport-layer generic messages: a server drops anything else
+            w.log(ev='protocol_violation', n=self.n, what='first packet has type %d, not KEXINIT' % t, head=bytes(payload[:8]).hex())
+            self.emit(sock, 'eof', b'')
+            sock.push(EOF)
+            self.done = True
+            return
         if t == MSG_KEXINIT:
             try:
                 ck = wire.parse_kexinit(payload[1:])
@@ -352,6 +359,9 @@ class SshServer:
             reply = bytes([MSG_KEXDH_REPLY]) + wire.string(blob) + wire.string(b'\x07' * 32) + \
                 wire.string(wire.string(b'ssh-ed25519') + wire.string(b'\x00' * 64))
             self.emit_packet(sock, 'kexreply', reply)
+            if self.cfg.get('newkeys_after_reply'):
+                # what OpenSSH does: SSH_MSG_NEWKEYS follows the reply at once (same segment)
+                self.emit_packet(sock, 'newkeys', bytes([21]))
         elif t == MSG_GEX_REQUEST:
             r = wire.Reader(payload[1:])
             try:
@@ -390,6 +400,8 @@ class SshServer:
             reply = bytes([MSG_GEX_REPLY]) + wire.string(blob) + wire.mpint(5) + \
                 wire.string(wire.string(b'ssh-ed25519') + wire.string(b'\x00' * 64))
             self.emit_packet(sock, 'gexreply', reply)
+            if self.cfg.get('newkeys_after_reply'):
+                self.emit_packet(sock, 'newkeys', bytes([21]))
         else:
             w.log(ev='send', n=self.n, type=int(t))
 
